@@ -232,6 +232,10 @@ func main() {
 		os.Exit(2)
 	}
 	prop := os.Args[1]
+	if prop == "worker" {
+		workerMain()
+		return
+	}
 	fs := flag.NewFlagSet(prop, flag.ExitOnError)
 	seed := fs.Uint64("seed", 1, "PRNG seed")
 	tier := fs.String("tier", "quick", "quick|thorough")
